@@ -299,27 +299,29 @@ tainted<T*, T_Sbx> copy_memory_or_grant_access(rlbox_sandbox<T_Sbx>& sandbox,
   constexpr bool same_el_size =
     sizeof(tainted_volatile<std::remove_cv_t<T>, T_Sbx>) == sizeof(T);
 
+  // Check the source before anything else is done, whichever way the request
+  // is then served (a refused request leaks nothing): a null source or a range
+  // that runs from application memory into the sandbox or back is refused
+  detail::check_range_doesnt_cross_app_sbx_boundary(sandbox, src, source_size);
+
+  // The check above only looks at the two ends of the range. Nothing limits
+  // the size of this buffer to the size of the sandbox (memcpy, which does, is
+  // only one of the ways the buffer is read below), so a buffer with both ends
+  // in application memory could still contain the sandbox's memory
+  {
+    auto sbx_start = reinterpret_cast<uintptr_t>(sandbox.get_memory_location());
+    auto src_start = reinterpret_cast<uintptr_t>(src);
+    detail::dynamic_check(sbx_start == 0 || sbx_start < src_start ||
+                            sbx_start - src_start >= source_size ||
+                            sandbox.is_pointer_in_sandbox_memory(src),
+                          "Granting access to a region that contains the "
+                          "sandbox memory");
+  }
+
   // sandbox can grant access if it includes the following line
   // using can_grant_deny_access = void;
   if constexpr (detail::has_member_using_can_grant_deny_access_v<T_Sbx> &&
                 same_el_size) {
-    detail::check_range_doesnt_cross_app_sbx_boundary(sandbox, src, source_size);
-
-    // The check above only looks at the two ends of the range. Unlike memcpy,
-    // nothing limits the size of this buffer to the size of the sandbox, so a
-    // buffer with both ends in application memory could still contain the
-    // sandbox's memory
-    {
-      auto sbx_start =
-        reinterpret_cast<uintptr_t>(sandbox.get_memory_location());
-      auto src_start = reinterpret_cast<uintptr_t>(src);
-      detail::dynamic_check(sbx_start == 0 || sbx_start < src_start ||
-                              sbx_start - src_start >= source_size ||
-                              sandbox.is_pointer_in_sandbox_memory(src),
-                            "Granting access to a region that contains the "
-                            "sandbox memory");
-    }
-
     bool success;
     auto ret = sandbox.INTERNAL_grant_access(src, num, success);
     if (success) {
@@ -336,15 +338,23 @@ tainted<T*, T_Sbx> copy_memory_or_grant_access(rlbox_sandbox<T_Sbx>& sandbox,
   if (!copy) {
     return nullptr;
   }
+  // The copy below can still be refused (an element that the sandbox's type
+  // cannot hold, a buffer larger than the sandbox): give the block back then
+  bool copy_completed = false;
+  auto release_copy = detail::make_scope_exit([&] {
+    if (!copy_completed) {
+      sandbox.free_in_sandbox(copy);
+    }
+  });
 
   if constexpr (same_el_size) {
     rlbox::memcpy(sandbox, copy, src, source_size);
   } else {
-    detail::check_range_doesnt_cross_app_sbx_boundary(sandbox, src, source_size);
     for (size_t i = 0; i < num; i++) {
       copy[i] = src[i];
     }
   }
+  copy_completed = true;
   if (free_source_on_copy) {
     free(const_cast<void*>(reinterpret_cast<const void*>(src)));
   }
@@ -427,11 +437,19 @@ T* copy_memory_or_deny_access(rlbox_sandbox<T_Sbx>& sandbox,
     std::memcpy(copy, src_raw, source_size);
   } else {
     // The range of num elements of the sandbox's size starting at src_tainted
-    // was checked above: read them as such
+    // was checked above: read them as such. An element that the application's
+    // type cannot hold ends the request: the buffer goes back then
+    bool copy_completed = false;
+    auto release_copy = detail::make_scope_exit([&] {
+      if (!copy_completed) {
+        free(const_cast<void*>(reinterpret_cast<const void*>(copy)));
+      }
+    });
     using T_El = std::remove_cv_t<T>;
     for (size_t i = 0; i < num; i++) {
       const_cast<T_El*>(copy)[i] = src_tainted[i].UNSAFE_unverified();
     }
+    copy_completed = true;
   }
   if (free_source_on_copy) {
     sandbox.free_in_sandbox(src);
